@@ -24,6 +24,8 @@ def run(ctx):
     ar.io_ownership_rule(ctx, 'R19.4')
     ar.no_remove_rename_rule(ctx, 'R19.5')
     from . import callsigs as _cs
+    from . import meta_rules
+    meta_rules.rowcount_rule(ctx, 'R19.5', only_modules={'api', 'writer'})
     _cs.general_rules(ctx, 'R19', ['writer.write', 'writer.write_multi', 'writer.partition_on_columns', 'writer.make_part_file', 'api.ParquetFile.write_row_groups', 'api.ParquetFile._write_common_metadata', 'writer.write_common_metadata'])
     ar.open_close_pairing_rule(ctx, 'R19.6')
     ar.single_pass_data_rule(ctx, 'R19.7')
